@@ -1,151 +1,18 @@
-// Package c11 checks C11: set commands implement exact set algebra.
 package c11
 
 import (
-	"strings"
 	"testing"
 
-	"pgregory.net/rapid"
-
-	"verifharness/gen"
 	"verifharness/kit"
 	"verifharness/prog"
 )
 
 func TestMain(m *testing.M) { kit.Main(m, "C11") }
 
-var keys = []string{"s1", "s2", "s3", "S1", "missing", "str", "vol"} // missing: never written by SADD; str: a string; vol: set with TTL
-var members = []string{"", "a", "b", "c", "A", "x\r\ny"}
-
-func key(t *rapid.T) string    { return rapid.SampledFrom(keys).Draw(t, "key") }
-func setKey(t *rapid.T) string { return rapid.SampledFrom(keys[:4]).Draw(t, "skey") }
-func member(t *rapid.T) string { return rapid.SampledFrom(members).Draw(t, "member") }
-
-func genOp(t *rapid.T) kit.Cmd {
-	c := func(name string, args ...string) kit.Cmd {
-		return kit.MkCmd(append([]string{gen.CaseOf(t, name)}, args...)...)
-	}
-	manyKeys := func(lo, hi int) []string {
-		n := rapid.IntRange(lo, hi).Draw(t, "nk")
-		var ks []string
-		for i := 0; i < n; i++ {
-			ks = append(ks, key(t))
-		}
-		return ks
-	}
-	switch gen.Weighted(t, "cmd", []int{14, 7, 4, 3, 4, 6, 5, 5, 5, 5, 5, 5, 5, 5, 2}) {
-	case 0:
-		k := setKey(t)
-		if rapid.IntRange(0, 7).Draw(t, "anyk") == 0 {
-			k = key(t)
-		}
-		n := rapid.IntRange(1, 4).Draw(t, "n")
-		args := []string{k}
-		for i := 0; i < n; i++ {
-			args = append(args, member(t))
-		}
-		return c("sadd", args...)
-	case 1:
-		n := rapid.IntRange(1, 3).Draw(t, "n")
-		args := []string{key(t)}
-		for i := 0; i < n; i++ {
-			args = append(args, member(t))
-		}
-		return c("srem", args...)
-	case 2:
-		return c("sismember", key(t), member(t))
-	case 3:
-		return c("scard", key(t))
-	case 4:
-		return c("smembers", key(t))
-	case 5:
-		return c("smove", key(t), key(t), member(t))
-	case 6:
-		if rapid.Bool().Draw(t, "cnt") {
-			return c("spop", key(t), gen.Pick(t, "c", "0", "1", "2", "7", "-1", "x"))
-		}
-		return c("spop", key(t))
-	case 7:
-		if rapid.Bool().Draw(t, "cnt") {
-			return c("srandmember", key(t), gen.Pick(t, "c", "0", "1", "-1", "3", "-3", "8", "-8", "x"))
-		}
-		return c("srandmember", key(t))
-	case 8:
-		return c("sunion", manyKeys(1, 4)...)
-	case 9:
-		return c("sinter", manyKeys(1, 4)...)
-	case 10:
-		return c("sdiff", manyKeys(1, 4)...)
-	case 11:
-		return c("sunionstore", append([]string{key(t)}, manyKeys(1, 3)...)...)
-	case 12:
-		return c("sinterstore", append([]string{key(t)}, manyKeys(1, 3)...)...)
-	case 13:
-		return c("sdiffstore", append([]string{key(t)}, manyKeys(1, 3)...)...)
-	default:
-		name := gen.Pick(t, "an", "sadd", "srem", "sismember", "scard", "smembers", "smove", "spop", "srandmember", "sunion", "sinter", "sdiff", "sunionstore", "sinterstore", "sdiffstore")
-		n := rapid.IntRange(0, 2).Draw(t, "arity")
-		var args []string
-		for i := 0; i < n; i++ {
-			args = append(args, gen.Pick(t, "aa", "s1", "a", "1"))
-		}
-		return c(name, args...)
-	}
-}
-
-func genProgram(t *rapid.T) prog.Program {
-	p := prog.Program{ShardNum: rapid.SampledFrom([]int{1, 2, 16}).Draw(t, "shards")}
-	if rapid.IntRange(0, 3).Draw(t, "prologue") > 0 {
-		p.Ops = append(p.Ops, kit.MkCmd("SET", "str", "v"), kit.MkCmd("SADD", "vol", "a", "b"), kit.MkCmd("EXPIRE", "vol", "5000"))
-	}
-	n := rapid.SampledFrom([]int{1, 3, 6, 12, 25, 40}).Draw(t, "len")
-	for i := 0; i < n; i++ {
-		p.Ops = append(p.Ops, genOp(t))
-	}
-	return p
-}
-
-func opts() prog.Options {
-	return prog.Options{
-		SweepKeys: func(prog.Program) []string { return keys },
-		NonTrivial: func(p prog.Program, st *prog.Stats) bool {
-			// an algebra command with >= 2 operands, or a STORE, or an op on the "" member
-			for _, op := range p.Ops {
-				name := strings.ToLower(string(op[0]))
-				switch name {
-				case "sunion", "sinter", "sdiff":
-					if len(op) >= 3 {
-						return true
-					}
-				case "sunionstore", "sinterstore", "sdiffstore":
-					if len(op) >= 3 {
-						return true
-					}
-				case "sadd", "srem", "sismember", "smove":
-					if len(op) < 3 {
-						continue
-					}
-					for _, a := range op[2:] {
-						if len(a) == 0 {
-							return true
-						}
-					}
-				}
-			}
-			return false
-		},
-	}
-}
-
-func exec(p prog.Program) kit.Outcome {
-	o, _ := prog.Run(p, opts())
-	return o
-}
-
 func TestPrograms(t *testing.T) {
-	kit.Check(t, kit.Spec[prog.Program]{Sub: "prog", Quick: 1500, Thorough: 30000, Gen: genProgram, Exec: exec})
+	kit.Check(t, kit.Spec[prog.Program]{Sub: "prog", Quick: 1500, Thorough: 30000, Gen: GenProgram, Exec: Exec})
 }
 
 func TestReplay(t *testing.T) {
-	kit.Replay[prog.Program](t, map[string]func(kit.RawCase) kit.Outcome{"prog": kit.ReplaySub(exec)})
+	kit.Replay[prog.Program](t, map[string]func(kit.RawCase) kit.Outcome{"prog": kit.ReplaySub(Exec)})
 }
